@@ -4,7 +4,10 @@ Props/C09.lean.  Three ties:
           observed through an eval.Evaluator assembled from the real operator table with symbolic functions
   wf      implementation vs the expression AST (conventional precedence, hard-coded in the harness) in three layouts
   val     real NewFixedEvaluator / NewFloatEvaluator vs the value of the MODEL's tree walked with the library's own
-          operator functions; reused vs fresh evaluator; division by zero as configured; no panic"""
+          operator functions; reused vs fresh evaluator; division by zero as configured; no panic
+  fxval   model vs code on VALUES of the fixed evaluator (Model/EvalFixed.lean computes the result)
+  flval   model vs code on VALUES of the float64 / float32 evaluators, bit for bit (Model/EvalFloat.lean over the IEEE-754
+          arithmetic of Model/EvalSoftFloat.lean); every line also on a reused evaluator"""
 import json
 from concurrent.futures import ThreadPoolExecutor
 
@@ -177,8 +180,9 @@ def _fxval(ctx, n, only=None):
     model = [o for r in res for o in r]
     ctx.rules.append("area fxval: model vs code on values — NewFixedEvaluator[D1|D2|D3|D4|D6|D9|D16](resolver, z).Evaluate against "
                      "EvalFixed.evaluate computed by the Lean driver (operand conversion, operators, integer functions from the "
-                     "C03/C04 models); plain comparison of the result texts; `opaque` model answers (exponent literals, ^, "
-                     "sqrt/log/exp…) are not compared and counted separately")
+                     "C03/C04 models, literals with an exponent through the IEEE-754 model); plain comparison of the result "
+                     "texts; `opaque` model answers (^, sqrt/log/exp…, exponent literals beyond int64) are not compared and "
+                     "counted separately")
     bad = 0
     opaque = 0
     hist = {}
@@ -213,6 +217,59 @@ def _fxval(ctx, n, only=None):
     ctx.extra["fxval_results"] = dict(sorted(hist.items()))
 
 
+def _flval(ctx, n, only=None):
+    """model vs code on VALUES of the float evaluators: the driver computes the result with Model/EvalFloat.lean over the
+    IEEE-754 arithmetic on bit patterns of Model/EvalSoftFloat.lean; `opaque` model answers are not compared"""
+    lines = only if only is not None else ctx.corpus("flval") + ctx.gen("flval", ctx.seed * 32452843 + 29, n[ctx.tier])
+    impl = _par(ctx, "flval", lines, chunk=8000)
+    parts = [lines[i:i + 8000] for i in range(0, len(lines), 8000)] or [[]]
+    with ThreadPoolExecutor(max_workers=14) as ex:
+        res = list(ex.map(lambda p: ctx.run_model("drv_c09", p), parts))
+    if impl is None or any(r is None for r in res):
+        ctx.violations.append({"kind": "correspondence", "concrete": False, "what": "flval stream could not be run (driver or harness failed)"})
+        return
+    model = [o for r in res for o in r]
+    ctx.rules.append("area flval: model vs code on values — NewFloatEvaluator[float64|float32](resolver, z).Evaluate against "
+                     "EvalFloat.evaluate computed by the Lean driver (strconv.ParseFloat on decimal literals, + - * / math.Mod, "
+                     "comparisons, signs, abs ceil floor round max min if on IEEE-754 BIT PATTERNS by exact rational "
+                     "arithmetic, round to nearest even); plain comparison of the result texts (numbers as bit patterns, all "
+                     "NaNs one value, a zero of either sign one value); `opaque` model answers (^, sqrt/log/exp…, hexadecimal or `_` "
+                     "literals) are not compared and counted separately")
+    bad = 0
+    opaque = 0
+    hist = {}
+    for l, a, b in zip(lines, impl, model):
+        ctx.evals += 1
+        ctx.kinds["flval:y"] = ctx.kinds.get("flval:y", 0) + 1
+        if b == "opaque":
+            opaque += 1
+            if a in ("PANIC", "panic", "hang"):
+                b = "no panic / hang"      # never acceptable
+            else:
+                continue
+        key = l.split(" ")[1] + ":" + b.split(" ", 1)[0]
+        hist[key] = hist.get(key, 0) + 1
+        if a == b and b != "panic":
+            if b != "err":
+                ctx.distinct.add(hash(("flval", l)))
+            if len(ctx.samples) < 20 and ctx.kinds["flval:y"] % 4999 == 1:
+                ctx.samples.append({"area": "flval", "op": l[:200], "impl": a[:120], "model": b[:120]})
+            continue
+        if a == "skipped-after-crash":
+            continue
+        bad += 1
+        if bad <= 3:
+            rep = {"property": ctx.id, "kind": "correspondence", "area": "flval", "harness": "harness", "driver": "drv_c09",
+                   "ops": [l], "impl_outputs": [a], "model_outputs": [b], "concrete_failing_input": True,
+                   "contradicts": "C09.float_value_render / float_div_by_zero_configured / … are about EvalFloat.evaluate; the "
+                                  "implementation returns a different value (or fails differently) on this input"}
+            path = ctx._write_replay(rep)
+            ctx.violations.append({"kind": "correspondence", "what": "flval: impl=%s model=%s on `%s`" % (a[:120], b[:120], l[:200]),
+                                   "replay": path, "concrete": True})
+    ctx.extra["flval_opaque_not_compared"] = opaque
+    ctx.extra["flval_results"] = dict(sorted(hist.items()))
+
+
 def run(ctx):
     ctx.modelled += [
         "symbolic tie (struct): the harness copies Symbol/Precedence/presence of Evaluate and EvaluateUnary from "
@@ -236,12 +293,26 @@ def run(ctx):
         "fixed_operators_are_f64 / fixed_operators_exact / fixed_functions_are_f64 / fixed_floor_spec, "
         "div_by_zero_configured / div_by_zero_render, sign_on_literal / sign_applies_to_operand_value, "
         "bool_counts_as_one, string_fallbacks, fixed_value_no_panic",
-        "NOT modelled in Lean (opaque `outside` in the model, taken from the implementation): everything that goes "
-        "through float64 — literals with an exponent inside the fixed evaluator, the operator ^, sqrt cbrt exp exp2 log "
-        "log10 log1p, and the float evaluators altogether; they are tied by the val stream (the model's tree walked "
-        "with the library's operators, each application judged by an independent reference — Go float arithmetic / "
-        "f64 methods — on ten real evaluators).  Kept as C09.fixed_value_Statement: robustness of the VALUE model on "
-        "every byte list (proved for the symbolic evaluation and for well-formed input)"]
+        "VALUES of the float evaluators are inside the Lean model as well (Model/EvalFloat.lean over Model/EvalSoftFloat.lean: "
+        "IEEE-754 binary64 and binary32 on BIT PATTERNS by exact rational arithmetic, round to nearest even — "
+        "strconv.ParseFloat on decimal literals at the evaluator's own bit size, + - * /, math.Mod, the comparisons with NaN "
+        "unordered, signs, abs ceil floor round, the built-in max/min with -0 < +0 and NaN, if, the string fall-backs incl. the "
+        "%v text of a NUMBER = strconv's shortest %g, SoftFloat.fmtG) and "
+        "compared bit for bit, model vs code, by the flval stream (every line also on a REUSED evaluator); "
+        "float_value_render / float_value_render_vars / float_value_whitespace, float_operators_are_ieee, "
+        "float_functions_are_ieee, float_div_by_zero_configured / float_div_by_zero_render with the contrast "
+        "float_zero_test_is_needed, float_sign_on_literal / float_sign_applies_to_operand_value, float_evaluate_no_panic, "
+        "float_rounding_nearest_even / float_encoding_decodes (what the model's rounding IS), float_order_total / "
+        "float_nan_unordered / float_mul_comm, float_number_meets_text",
+        "literals with an exponent inside the FIXED evaluator (f64.FromString's ParseFloat branch, then From[T](float64) = one "
+        "float64 product with the multiplier, truncated) are computed by the model too (EvalFixed.fromExp); "
+        "fixed_exponent_literal, fixed_multiplier_exact_as_float",
+        "NOT modelled in Lean (opaque `outside` in the model, taken from the implementation): the operator ^ (math.Pow), "
+        "sqrt cbrt exp exp2 log log10 log1p, hexadecimal and `_`-separated literals, the %v text of a float number on an exact "
+        "tie between two shortest digit strings, exponent literals of the fixed evaluator whose scaled value leaves int64 (the Go specification leaves that "
+        "conversion to the implementation); they are tied by the val stream (the model's tree walked with the library's "
+        "operators, each application judged by an independent reference — Go float arithmetic / f64 methods — on ten real "
+        "evaluators)"]
     ctx.assumptions += ["variable resolvers answer with literals (text without `$`): the Go loop in replaceVariables re-scans "
                         "its own output, so chains ($a -> $b -> 7) are followed but a self-referential answer ($x -> $x) "
                         "never returns; this is the one resolver hypothesis (h36) of the no-panic theorems",
@@ -263,6 +334,8 @@ def run(ctx):
             _val(ctx, None, only=rep.get("val_t_lines") or [])
         elif rep.get("area") == "fxval":
             _fxval(ctx, None, only=rep["ops"])
+        elif rep.get("area") == "flval":
+            _flval(ctx, None, only=rep["ops"])
         return
     ctx.diff(area="struct", driver="drv_c09", n={"quick": 120000, "thorough": 6000000}, stateful=True,
              trivial=lambda l, o: o in ("err", "ok -"),
@@ -273,3 +346,4 @@ def run(ctx):
     _wf(ctx, {"quick": 30000, "thorough": 1500000})
     _val(ctx, {"quick": 30000, "thorough": 1000000})
     _fxval(ctx, {"quick": 120000, "thorough": 4000000})
+    _flval(ctx, {"quick": 100000, "thorough": 2000000})
